@@ -19,8 +19,8 @@ RULE = ("two real dilated wormholes (Noise stand-in) run a random application sc
         "makes kills land mid-frame. Non-trivial = at least one effective kill and one delivered write; "
         "distinct = scheduler decision traces.")
 ASSUMPTIONS = ["Noise stand-in (spec-conformant NNpsk0)", "bounded progress: 600 virtual seconds after the last kill"]
-FLOORS = {"quick": {"kills": 250, "writes_delivered": 2000, "complete": 300},
-          "thorough": {"kills": 8000, "writes_delivered": 60000, "complete": 8000}}
+FLOORS = {"quick": {"kills": 250, "writes_delivered": 2000, "complete": 300, "app_pauses": 100, "app_resumes_while_offline": 8},
+          "thorough": {"kills": 8000, "writes_delivered": 60000, "complete": 8000, "app_pauses": 3000, "app_resumes_while_offline": 250}}
 
 
 def cases(tier, seed, prep=None):
@@ -31,6 +31,9 @@ def cases(tier, seed, prep=None):
         out.append({"kind": "random", "seed": base + i})
     for i in range(16 if q else 400):
         out.append({"kind": "random", "seed": base + 40000 + i, "nkills": [8, 12, 16, 24][i % 4]})
+    # receiving applications that pause and later resume their subchannel (also while no connection exists)
+    for i in range(80 if q else 2400):
+        out.append({"kind": "random", "seed": base + 80000 + i, "pauses": [2, 4, 8][i % 3], "nkills": [None, None, 8][i % 3]})
     bases = range(3) if q else range(20)
     for b in bases:
         for k in range(60, 420, 6 if q else 1):
@@ -51,7 +54,7 @@ def run_case(spec):
     rng = world.work_rng
     dp = DilatedPair(world, ping_interval=rng.choice([None, 5.0]))
     twins = spec["kind"] == "twins"
-    drv = ScriptDriver(dp, rng, late_listen=0.0 if twins else 0.2)
+    drv = ScriptDriver(dp, rng, late_listen=0.0 if twins else 0.2, pauses=spec.get("pauses", 0))
     by = None
     if twins or spec.get("bystander", spec["seed"] % 4 == 1):
         # a second, undisturbed dilated pair in the same process: nothing of one pair may reach the other
@@ -178,7 +181,8 @@ def run_case(spec):
     complete = settled()
     viol = []
     counters = {"kills": kills["done"], "kills_skipped": kills["skipped"], "opens": len(drv.opens),
-                "writes_delivered": 0, "complete": int(complete), "bystander_pairs": int(by is not None), "twin_cases": int(twins)}
+                "writes_delivered": 0, "complete": int(complete), "bystander_pairs": int(by is not None), "twin_cases": int(twins),
+                "app_pauses": drv.pauses_done, "app_resumes_while_offline": drv.resumes_offline}
 
     def wit(extra=None):
         w = {"spec": spec, "roles": {n: str(dp.role(n)) for n in "AB"}, "states": {n: dp.mstate(n) for n in "AB"},
